@@ -108,3 +108,10 @@ Theorem C13_extent_relative_band_refuted :
     clean_ends tol c = Ok t /\ c = p0 :: t /\ hd p0 t = p1 /\ 100000 * tol < Qabs (fst p0 - fst p1).
 Proof. exact clean_trim_relative_refuted. Qed.
 Print Assumptions C13_extent_relative_band_refuted.
+
+(* REFUTED (same relative band, severe form): a curve whose abscissas all lie within 1e-5*|x0| of the first one, but spread
+   by 0.25 (> 100000 tol), makes clean_composite_curve RAISE (IndexError) - end to end the whole service call fails *)
+Theorem C13_relative_band_raises_refuted :
+  exists (c : list pt), clean_curve tol c = Err EIndex /\ 100000 * tol < spread (map fst c).
+Proof. exact clean_relative_band_raises_refuted. Qed.
+Print Assumptions C13_relative_band_raises_refuted.
